@@ -44,12 +44,16 @@ VARIABLES bfile, bidx, btip,      \* block-header store: file, index (id+1 -> he
           lastReq,                \* lastRequested hash (id, -1 none)
           hTip, fhTip,            \* in-memory published tips (heights)
           ev,                     \* events emitted by the last action
+          gh,                     \* getheaders requests pushed by the last action: per peer <<>> (none) or
+                                  \* <<first locator hash, stop hash>> as ids (-1 = zero hash) of the LAST
+                                  \* PushGetHeadersMsg to that peer. Write-only (like act): nothing reads it
+                                  \* back, so it is part of Obs but neither of State nor of View.
           nmsgs, nrestarts, nfaults, ncrashes,
           down,                   \* TRUE: the process died, only Recover is possible
           abs, act, viol
 
 wvars == <<bfile, bidx, btip, ffile, ftip, hl, nextCp, sync, cands, conn, lastBlock,
-           startH, disc, lastReq, hTip, fhTip, ev>>
+           startH, disc, lastReq, hTip, fhTip, ev, gh>>
 vars  == <<wvars, nmsgs, nrestarts, nfaults, ncrashes, down, abs, act, viol>>
 
 Peers == 1..NPeers
@@ -60,7 +64,7 @@ Max(a, b) == IF a >= b THEN a ELSE b
 W == [bfile |-> bfile, bidx |-> bidx, btip |-> btip, ffile |-> ffile, ftip |-> ftip,
       hl |-> hl, nextCp |-> nextCp, sync |-> sync, cands |-> cands, conn |-> conn,
       lastBlock |-> lastBlock, startH |-> startH, disc |-> disc, lastReq |-> lastReq,
-      hTip |-> hTip, fhTip |-> fhTip, ev |-> <<>>, panic |-> FALSE,
+      hTip |-> hTip, fhTip |-> fhTip, ev |-> <<>>, gh |-> [p \in Peers |-> <<>>], panic |-> FALSE,
       budget |-> -1, crashed |-> FALSE,
       \* injected store-rollback failure of this headers message: the fkB-th call of the
       \* block store's RollbackLastBlock / the fkF-th call of the filter store's
@@ -73,7 +77,10 @@ Commit(w) ==
   /\ ffile' = w.ffile /\ ftip' = w.ftip /\ hl' = w.hl /\ nextCp' = w.nextCp
   /\ sync' = w.sync /\ cands' = w.cands /\ conn' = w.conn /\ lastBlock' = w.lastBlock
   /\ startH' = w.startH /\ disc' = w.disc /\ lastReq' = w.lastReq
-  /\ hTip' = w.hTip /\ fhTip' = w.fhTip /\ ev' = w.ev
+  /\ hTip' = w.hTip /\ fhTip' = w.fhTip /\ ev' = w.ev /\ gh' = w.gh
+
+\* peer.PushGetHeadersMsg(locator, stop): begin = the locator's first hash
+Push(w, p, begin, stop) == [w EXCEPT !.gh[p] = <<begin, stop>>]
 
 ----------------------------------------------------------------------------
 \* headerfs primitives (entry granularity; repaired stores, see HeaderStore.tla)
@@ -203,7 +210,10 @@ StartSync(w) ==
                     ELSE LET best == CHOOSE k \in 1..Len(cs) :
                                        /\ \A j \in 1..Len(cs) : w.lastBlock[cs[j]] <= w.lastBlock[cs[k]]
                                        /\ \A j \in 1..(k - 1) : w.lastBlock[cs[j]] < w.lastBlock[cs[k]]
-                         IN  [w EXCEPT !.cands = cs, !.sync = cs[best]]
+                             \* :2487-2525 locator of the store's tip; stop = the next checkpoint
+                             \* while the tip is below it, else the zero hash
+                             stop == IF w.nextCp # 0 /\ t[2] < w.nextCp THEN CpId(w.nextCp) ELSE -1
+                         IN  Push([w EXCEPT !.cands = cs, !.sync = cs[best]], cs[best], t[1], stop)
 
 ResetList(w) ==     \* headerList.ResetHeaderState(store tip)
   LET t == BTip(w) IN IF t[1] = ERR THEN w ELSE [w EXCEPT !.hl = << <<t[1], t[2]>> >>]
@@ -211,7 +221,7 @@ ResetList(w) ==     \* headerList.ResetHeaderState(store tip)
 Disc(w, p) == [w EXCEPT !.disc[p] = 1]
 
 \* An early return of handleHeadersMsg.
-Ret(w) == [w |-> w, wb |-> <<>>, recv |-> FALSE, fin |-> 0, ret |-> TRUE]
+Ret(w) == [w |-> w, wb |-> <<>>, recv |-> FALSE, fin |-> 0, ret |-> TRUE, last |-> -1]
 
 \* realignHeaderList (deferred in the repaired handleHeadersMsg): if the list
 \* and the store no longer end with the same header, re-anchor the list.
@@ -234,7 +244,8 @@ KnownWork(w, cnt, pos, cur, acc) ==
 RECURSIVE HdrLoop(_, _, _, _, _, _, _)
 HdrLoop(w, p, b, i, wb, recv, fin) ==
   IF w.crashed THEN Ret(w)
-  ELSE IF i > Len(b) THEN [w |-> w, wb |-> wb, recv |-> recv, fin |-> fin, ret |-> FALSE]
+  \* last = finalHash: the last header the loop looked at (:2758), known or not
+  ELSE IF i > Len(b) THEN [w |-> w, wb |-> wb, recv |-> recv, fin |-> fin, ret |-> FALSE, last |-> b[Len(b)]]
   ELSE
   LET h    == b[i]
       prev == w.hl[Len(w.hl)]
@@ -248,7 +259,7 @@ HdrLoop(w, p, b, i, wb, recv, fin) ==
                 wb1 == Append(wb, <<h, nh>>)
             IN  IF w1.nextCp # 0 /\ nh = w1.nextCp
                 THEN IF h = CpId(nh)
-                     THEN [w |-> w1, wb |-> wb1, recv |-> TRUE, fin |-> nh, ret |-> FALSE]
+                     THEN [w |-> w1, wb |-> wb1, recv |-> TRUE, fin |-> nh, ret |-> FALSE, last |-> h]
                      ELSE LET r == RollBackTo(w1, FindPrevCp(nh))
                           IN  Ret(Disc(r.w, p))
                 ELSE HdrLoop(w1, p, b, i + 1, wb1, recv, nh)
@@ -284,8 +295,13 @@ HandleHeaders0(w, p, b, failWrite) ==
            ELSE IF failWrite /\ r.wb # <<>> THEN r.w      \* "Unable to write block headers": return
            ELSE LET w1 == WriteB(r.w, r.wb)
                     w2 == IF r.recv THEN [w1 EXCEPT !.nextCp = FindNextCp(r.fin)] ELSE w1
-                    t  == BTip(w2)
-                IN  [w2 EXCEPT !.hTip = IF FixTipPublish /\ t[1] # ERR THEN t[2] ELSE r.fin]
+                    \* :3078-3090 not current: ask the SENDER for what follows the last header of the
+                    \* message, up to the next checkpoint
+                    w3 == IF ~Synced(w2)
+                          THEN Push(w2, p, r.last, IF w2.nextCp # 0 THEN CpId(w2.nextCp) ELSE -1)
+                          ELSE w2
+                    t  == BTip(w3)
+                IN  [w3 EXCEPT !.hTip = IF FixTipPublish /\ t[1] # ERR THEN t[2] ELSE r.fin]
 
 HandleHeaders(w, p, b, failWrite) ==
   IF b = <<>> THEN w
@@ -300,7 +316,11 @@ HandleNewPeer(w, p, sh, full) ==
   LET w0 == [w EXCEPT !.conn[p] = TRUE, !.lastBlock[p] = sh, !.startH[p] = sh, !.disc[p] = 0]
       w1 == [w0 EXCEPT !.cands = Append(@, p)]
   IN  IF ~full THEN w0
-      ELSE IF BTip(w1)[1] = ERR THEN w1 ELSE StartSync(w1)
+      ELSE IF BTip(w1)[1] = ERR THEN w1
+      \* :441-450 current and the new peer advertises more than the stored tip: getheaders(store locator, zero)
+      ELSE LET t  == BTip(w1)
+               w2 == IF t[2] < sh /\ Synced(w1) THEN Push(w1, p, t[1], -1) ELSE w1
+           IN  StartSync(w2)
 
 \* handleDonePeerMsg: the peer leaves the candidate list if it is there; whoever it
 \* was (candidate or not), if it is the sync peer the sync peer is dropped, the list
@@ -319,7 +339,8 @@ HandleInv(w, p, id) ==
                  THEN [w EXCEPT !.lastBlock[p] = Max(@, IdxOf(w, id))] ELSE w
            last == w1.hl[Len(w1.hl)][1]
        IN  IF (p = w1.sync \/ Synced(w1)) /\ last # id /\ w1.lastReq # id
-           THEN [w1 EXCEPT !.lastReq = id] ELSE w1
+           \* :2676-2698 getheaders(header-list tip + store locator, announced hash) to the announcer
+           THEN Push([w1 EXCEPT !.lastReq = id], p, last, id) ELSE w1
 
 \* writeCFHeadersMsg for the next k blocks of the stored chain (true filter headers)
 HandleWriteCF(w, k) ==
@@ -347,6 +368,7 @@ ObsOf(w) ==
                                          IF r[1] = ERR THEN NF ELSE r[1]]],
    f |-> [tip |-> FTip(w), byH |-> [h \in 1..HMax |-> ReadF(w, h - 1)]],
    ev |-> w.ev,
+   gh |-> w.gh,
    bl |-> [k \in 1..(HMax - 1) |-> Backlog(w, k)],
    sync |-> w.sync,
    cur |-> IF Synced(w) THEN 1 ELSE 0,
@@ -355,10 +377,10 @@ ObsOf(w) ==
 \* After the death of the process only the stores exist; everything in memory is
 \* blanked. (Events: a crash commits ev = <<>>, see Finish; a panic keeps what was
 \* delivered before it.)
-MaskDead(o) == [o EXCEPT !.bl = [k \in 1..(HMax - 1) |-> <<ERR>>],
+MaskDead(o) == [o EXCEPT !.bl = [k \in 1..(HMax - 1) |-> <<ERR>>], !.gh = [p \in Peers |-> <<>>],
                          !.sync = 0, !.cur = 0, !.disc = [p \in Peers |-> 0]]
 
-Obs == IF down THEN MaskDead(ObsOf([W EXCEPT !.ev = ev])) ELSE ObsOf([W EXCEPT !.ev = ev])
+Obs == IF down THEN MaskDead(ObsOf([W EXCEPT !.ev = ev, !.gh = gh])) ELSE ObsOf([W EXCEPT !.ev = ev, !.gh = gh])
 
 \* nf = 1: NewPeer of a peer that is not a full node (no SFNodeNetwork); 0 otherwise
 Act(op, p, batch, k, res) == [op |-> op, p |-> p, batch |-> batch, k |-> k, res |-> res, nf |-> 0]
@@ -501,6 +523,7 @@ Init ==
   /\ conn = [p \in Peers |-> FALSE] /\ lastBlock = [p \in Peers |-> 0]
   /\ startH = [p \in Peers |-> 0] /\ disc = [p \in Peers |-> 0]
   /\ lastReq = -1 /\ hTip = Len(c) - 1 /\ fhTip = fl - 1 /\ ev = <<>>
+  /\ gh = [p \in Peers |-> <<>>]
   /\ nmsgs = 0 /\ nrestarts = 0 /\ nfaults = 0 /\ ncrashes = 0 /\ down = FALSE
   /\ abs = AbsInit /\ act = Act("Init", 0, c, fl, "ok") /\ viol = {}
 
